@@ -51,9 +51,14 @@ def gen_dat(rng, ctx, pts3, cross, malformed=None):
     if malformed:
         k = rng.randrange(len(rows))
         if malformed == 'too-few':
-            rows[k] = rows[k][:-1]
+            rows[k] = rows[k][:rng.randint(1, dim)]          # any count from a lone entry to one entry short
+        elif malformed == 'glued':
+            rows[k] = [','.join(rows[k])]                   # comma separated without blanks: one token for the reader
+        elif malformed == 'non-numeric':
+            rows[k] = list(rows[k])
+            rows[k][rng.randrange(len(rows[k]))] = rng.choice(['abc', 'x1', '--', '1.0.0', 'e5'])
         else:
-            rows[k] = rows[k] + ['1.0']
+            rows[k] = rows[k] + ['1.0'] * rng.randint(1, 3)
         bad_row = k
     for k, toks in enumerate(rows):
         lines.append(sep.join(toks))
@@ -61,7 +66,7 @@ def gen_dat(rng, ctx, pts3, cross, malformed=None):
             lines.append('')
         if rng.random() < 0.05:
             lines.append('# a comment between the rows')
-    return '\n'.join(lines) + '\n', {'dim': dim, 'ncomp': ncomp, 'ngc': ngc, 'ngr': ngr, 'convert': convert, 'rows': rows, 'bad_row': bad_row, 'sep': sep}
+    return '\n'.join(lines) + '\n', {'dim': dim, 'ncomp': ncomp, 'ngc': ngc, 'ngr': ngr, 'convert': convert, 'rows': rows, 'bad_row': bad_row, 'sep': sep, 'malformed': malformed}
 
 
 def fmt_in(rng, v):
@@ -151,7 +156,7 @@ def main(tier, seed, replay):
                 f.write(wg.dumps(w['json']))
             pts = wg.sample_points(wrng, w, 12, p_inside=0.8)
             cross = w['truth']['cross']
-        malformed = wrng.choice([None, None, None, 'too-few', 'too-many'])
+        malformed = wrng.choice([None, None, None, None, 'too-few', 'too-few', 'too-many', 'glued', 'non-numeric'])
         text, spec = gen_dat(wrng, ctx, pts, cross, malformed)
         dat = os.path.join(workdir, 'd%d.dat' % i)
         with open(dat, 'w') as f:
@@ -240,7 +245,7 @@ def main(tier, seed, replay):
             V.count()
             # a malformed row must be reported: diagnostic + abnormal exit, and no row printed for it
             if rc == 0 or not ('entries' in err or 'terminate' in err or 'AssertThrow' in err):
-                V.violation('malformed-row-not-reported:%s' % ('too-few' if len(spec['rows'][spec['bad_row']]) < spec['dim'] + 1 else 'too-many'), dict(base, stdout_tail=out[-300:]))
+                V.violation('malformed-row-not-reported:%s:dim%d:%d-entries' % (spec['malformed'], spec['dim'], len(spec['rows'][spec['bad_row']])), dict(base, stdout_tail=out[-300:]))
             good_rows = spec['bad_row']
             V.nontrivial(('malformed', r['i']))
         else:
